@@ -365,6 +365,14 @@ pub fn random_state_case<T: Sc>(rng: &mut Rng, thorough: bool, idx: usize) -> St
         w = Some(base.iter().map(|v| *v * f).collect());
         wkind_name = "smallunits";
     }
+    // one case in sixteen: LARGE UNITS - all weights times 2^44 (2^200 in double precision): the entries
+    // of W·Phi are ~1e13 (1e60), far above one but with squares well inside the range (round 13)
+    if idx % 16 == 7 {
+        let f = T::of(if T::WIDTH == 32 { 2f64.powi(44) } else { 2f64.powi(200) });
+        let base: Vec<T> = w.clone().unwrap_or_else(|| vec![T::of(1.0); recipe.n()]);
+        w = Some(base.iter().map(|v| *v * f).collect());
+        wkind_name = "largeunits";
+    }
     let eps = match idx % 7 {
         0 => Some(T::of(1e-9)),
         1 => Some(T::of(-1e-9)),
@@ -473,7 +481,16 @@ pub fn rankdef_case<T: Sc>(rng: &mut Rng, idx: usize) -> StateCase<T> {
     let s = if flavour.is_mrhs() { rng.range(1, 3) } else { 1 };
     let y = random_data::<T>(rng, &recipe, s, false);
     let wkind = *rng.pick(&[WKind::None, WKind::Positive, WKind::Ones]);
-    let w = random_weights(rng, wkind, recipe.n(), recipe.m()).map(|w| w.iter().map(|v| T::of(*v)).collect());
+    let mut w: Option<Vec<T>> = random_weights(rng, wkind, recipe.n(), recipe.m()).map(|w| w.iter().map(|v| T::of(*v)).collect());
+    let mut wkind_name = wkind.name();
+    // one case in six (cycled): UNIFORM weights w·1 with w = 2^-34 (2^-24 in single precision; more than three orders of magnitude below the threshold, outside the band the driver treats as ambiguous): every
+    // singular value of W·Phi = w·sigma(Phi) then lies below the threshold although those of Phi lie far
+    // above it - the rank decision is taken on the WEIGHTED matrix, uniform weights are weights (round 13)
+    if idx % 6 == 5 {
+        let wv = if T::WIDTH == 32 { 2f64.powi(-24) } else { 2f64.powi(-34) };
+        w = Some(vec![T::of(wv); recipe.n()]);
+        wkind_name = "uniform-small";
+    }
     // far above the band within which two SVDs may disagree about a vanishing singular value
     // (backward error times sigma_max), far below the singular values that remain
     let eps = Some(T::of(if T::WIDTH == 32 { 2e-2 } else { 1e-4 } * if idx % 2 == 0 { 1.0 } else { -1.0 }));
@@ -485,7 +502,7 @@ pub fn rankdef_case<T: Sc>(rng: &mut Rng, idx: usize) -> StateCase<T> {
         flavour,
         y,
         w,
-        wkind: wkind.name(),
+        wkind: wkind_name,
         eps,
         init,
         history,
